@@ -585,7 +585,7 @@ Lemma http_failed_load_inert w st : snd (s_load http st w) = SErr -> fst (s_load
 Proof.
   simpl. destruct (fail_load w); simpl; auto.
   destruct (store w) as [[b m]|]; simpl; auto.
-  destruct (same_tag (h_etag st) (Some (THttp b))); simpl; auto.
+  destruct (same_tag (h_etag st) (Some (THttp b))); simpl; [discriminate|].
   destruct (parse b); simpl; auto. discriminate.
 Qed.
 
@@ -698,7 +698,7 @@ Definition chk (now : Q) : @sitem world := SCheck false now 0 idw.
    two polls; the server's document is replaced by document 2 *)
 Definition f9_state : sys world hsrc :=
   run_seq cfg0 http [chk 1; chk 2; write 2%nat]
-          (init cfg0 http true false 1%nat w1 {| h_etag := None; h_cache := None |}).
+          (init cfg0 http true false 1%nat w1 {| h_etag := None; h_cache := None; h_n304 := 0%nat |}).
 
 Theorem f9_refutes :
   loadable (wld f9_state) 2%nat /\ suppress_until (rl f9_state) <= 0 /\ policy (gd f9_state) = 1%nat /\
